@@ -149,6 +149,44 @@ type Behaviour struct {
 	Compile bool   // the error is a compile error
 }
 
+// startsGoroutines reports that src contains a `go` statement. The order in which
+// such a program's lines are printed is not determined by the program (examples/
+// goroutine.ego prints "Waiting on a reply..." from main and "Sleeping in a distant
+// land" from the goroutine in either order), so its output is compared as a multiset
+// of lines. An ordering-only change of a concurrent program's output is therefore not
+// detectable; everything else about the behaviour is.
+func startsGoroutines(src string) bool {
+	toks, _ := scan(src)
+
+	for i, t := range toks {
+		if t.kind == tkIdent && t.text == "go" && i+1 < len(toks) && (toks[i+1].kind == tkIdent || toks[i+1].text == "(") {
+			return true
+		}
+	}
+
+	return false
+}
+
+func sortedLines(s string) string {
+	l := strings.Split(s, "\n")
+	sort.Strings(l)
+
+	return strings.Join(l, "\n")
+}
+
+// EqualFor compares two behaviours of the program src.
+func (b Behaviour) EqualFor(src string, o Behaviour) bool {
+	if b.Equal(o) {
+		return true
+	}
+
+	if startsGoroutines(src) {
+		return b.Outcome == o.Outcome && b.Err == o.Err && sortedLines(b.Out) == sortedLines(o.Out)
+	}
+
+	return false
+}
+
 func (b Behaviour) Equal(o Behaviour) bool {
 	return b.Out == o.Out && b.Outcome == o.Outcome && b.Err == o.Err
 }
